@@ -714,6 +714,12 @@ func (l *Lexer) looksLikeDate() bool {
 }
 
 func (l *Lexer) looksLikeVirtualAccount() bool {
+	// A virtual account opens a posting: only the indent and a status mark precede it.
+	// Elsewhere (transaction header) the parenthesis opens a code, colon or not.
+	before := strings.TrimRight(l.input[:l.pos], " \t*!")
+	if len(before) == l.pos || (before != "" && before[len(before)-1] != '\n') {
+		return false
+	}
 	for i := l.pos + 1; i < len(l.input); i++ {
 		ch := l.input[i]
 		if ch == ')' || ch == '\n' {
